@@ -7,7 +7,7 @@ import Op2Proofs.Prt.SpecEq
 # C10 — PRT sprite metadata round-trips and always satisfies its cross-field rules
 -/
 namespace Op2.Prt
-open Op2 Op2.Parser
+open Op2 Op2.Parser Op2.Parser.PrtInv
 
 /-- every accepted byte string yields a structure satisfying the cross-field rules — stated in ℕ: the scan-line width is
     the image width rounded up to four *without* 32-bit wrap, each palette index names an existing palette, each
